@@ -26,6 +26,7 @@ func c12(c *Ctx) {
 	// R3
 	c05R3(c, "R3/C05.R3")
 	c08R3(c, "R3/C08.R3")
+	sHigherLeaderSide(c, "R3/S-HIGHER")
 	c12R4(c, "R4")
 	sUpToDate(c, "R5/S-UPTODATE", "(*Raft).requestVote", "RequestVoteRequest", "RequestVoteResponse", false, true)
 	sUpToDate(c, "R5/S-UPTODATE", "(*Raft).requestPreVote", "RequestPreVoteRequest", "RequestPreVoteResponse", false, true)
